@@ -176,12 +176,12 @@ def scenario(w):
         conf = None
     else:
         conf = S.get_config(target)
+        for k, v in fixed.items():
+            conf[k] = v
         if route == 'get_func' and ch.flag('prime_get_func', 1, 2):
             conf.get_func()                      # a partial is taken before the options are edited ...
             w.probe('get_func_primed')
-        chained = ch.flag('chained_edits', 1, 3)     # ... and options may be set by chained indexing
-        for k, v in fixed.items():
-            conf[k] = v
+        chained = ch.flag('chained_edits', 1, 2)     # ... and options may be set by chained indexing
         for g in opts:
             for k, v in opts[g].items():
                 if chained:
